@@ -14,7 +14,8 @@ BOUNDS = ("streams: props/streams_cat.py (8 quick / 10 thorough concrete concate
           "poll; k = 2 thorough, k = 3 for streams <= 20 octets), end-of-stream signalled with or after the last octet (symbolic); three stream "
           "kinds: io.BytesIO subclass, seekable non-BytesIO double, non-seekable double behind the real CachingStreamWrapper")
 OUTSIDE = "more than k+1 chunks; streams outside the catalogue; real OS files/sockets"
-ASSUMPTIONS = ["stream doubles implement Python's non-blocking io contract: read() -> None when no data yet, short reads, b'' only after close"]
+ASSUMPTIONS = ["kind 3: io.DEFAULT_BUFFER_SIZE as seen by pyasn1.codec.streaming is replaced by 8 during the harness (environment constant), in symbolic exploration and replay alike",
+               "stream doubles implement Python's non-blocking io contract: read() -> None when no data yet, short reads, b'' only after close"]
 
 
 class _BytesIOArrival(io.BytesIO):
@@ -42,7 +43,29 @@ def _mk_stream(kind, data, cuts, eof_with_last):
     return s, s
 
 
+class _IoShim(object):
+    DEFAULT_BUFFER_SIZE = 8
+
+    def __getattr__(self, name):
+        return getattr(io, name)
+
+
 def run_schedule(sid, kind, eof_with_last, cuts):
+    if kind != 3:
+        return _run_schedule(sid, kind, eof_with_last, cuts)
+    # kind 3: non-seekable stream behind the real CachingStreamWrapper whose cache-drop threshold (io.DEFAULT_BUFFER_SIZE as seen
+    # by pyasn1.codec.streaming) is scaled to 8 octets, so that cache drops happen inside and between the items of these short streams
+    from pyasn1.codec import streaming
+
+    saved = streaming.io
+    streaming.io = _IoShim()
+    try:
+        return _run_schedule(sid, 2, eof_with_last, cuts)
+    finally:
+        streaming.io = saved
+
+
+def _run_schedule(sid, kind, eof_with_last, cuts):
     st = BY_ID[sid]
     data = st.data
     total = len(data)
@@ -86,6 +109,11 @@ def sched1(sid, kind, eof_with_last, c1):
     return run_schedule(sid, kind, eof_with_last, (c1,))
 
 
+def sched_dup(sid, kind, eof_with_last, c1):
+    """two consecutive 'no data yet' polls at the same position"""
+    return run_schedule(sid, kind, eof_with_last, (c1, c1))
+
+
 def sched2(sid, kind, eof_with_last, c1, c2):
     return run_schedule(sid, kind, eof_with_last, (c1, c2))
 
@@ -94,11 +122,17 @@ def sched3(sid, kind, eof_with_last, c1, c2, c3):
     return run_schedule(sid, kind, eof_with_last, (c1, c2, c3))
 
 
+# streams without a definite-length container longer than the scaled buffer (those hit known finding F-cache-renumber of C11)
+SMALLBUF_OK = ("ber_indef_chunked", "two_ints_octs", "bits_chunked", "choice_expl_indef", "nest_indef", "hi_tag")
 OBLIGATIONS = []
 for st in STREAMS:
     n = len(st.data)
     tiers = ("quick", "thorough") if st.id in QUICK else ("thorough",)
-    for kind in range(3):
+    for kind in range(4):
+        if kind == 3 and st.id not in SMALLBUF_OK:
+            continue
+        OBLIGATIONS.append(Obl("sched_dup:%s:k%d" % (st.id, kind), sched_dup, {"sid": C(st.id), "kind": C(kind), "eof_with_last": B, "c1": I(0, n)},
+                               budget=120, tiers=tiers, doc="two empty polls in a row at every position of stream %s, stream kind %d" % (st.id, kind)))
         OBLIGATIONS.append(Obl("sched1:%s:k%d" % (st.id, kind), sched1, {"sid": C(st.id), "kind": C(kind), "eof_with_last": B, "c1": I(0, n)},
                                budget=120, tiers=tiers, doc="every 2-chunk arrival of stream %s (%s), stream kind %d" % (st.id, st.doc, kind)))
         nsh = min(16, n + 1)
